@@ -27,6 +27,10 @@ if [ ! -f $B/build.ninja ] || [ "$(cat $B/.pv_repo 2>/dev/null)" != "$REPO" ]; t
   rm -rf $B; mkdir -p $B
   cmake -G Ninja -S $REPO -B $B $EXTRA -DCMAKE_CXX_FLAGS="$FLAGS" >$B.cmake.log 2>&1 || { cat $B.cmake.log >&2; exit 3; }
   echo $REPO > $B/.pv_repo
+else
+  # re-run the configure step every time: the source lists are file(GLOB ..) results, so a source file
+  # added to / removed from the tree is only noticed by a new configure (cheap; unchanged outputs are kept)
+  cmake -S $REPO -B $B >$B.cmake.log 2>&1 || { cat $B.cmake.log >&2; exit 3; }
 fi
 cmake --build $B -j16 >$B.build.log 2>&1 || { tail -50 $B.build.log >&2; exit 4; }
 echo $B
